@@ -3,6 +3,7 @@ package props
 import (
 	"bytes"
 	"fmt"
+	"strings"
 	"testing"
 
 	astisub "github.com/asticode/go-astisub"
@@ -237,8 +238,32 @@ func TestC04(t *testing.T) {
 		doc, cols := genSSADoc(rt, false)
 		addEmptySSALines(rt, &doc)
 		c := c04ReadCase{Doc: doc, Rend: genSSARendering(rt, cols), Entry: rapid.SampledFrom([]int{0, 0, 1, 1, 2, 3}).Draw(rt, "entry")}
+		if len(c.Doc.Events) > 0 && rapid.IntRange(0, 24).Draw(rt, "huge") == 1 {
+			base := c.Doc.Events
+			before := len(renderSSA(c.Doc, c.Rend))
+			c.Doc.Events = append(c.Doc.Events, base...)
+			for k := 70000 / (len(renderSSA(c.Doc, c.Rend)) - before + 1); k > 0; k-- {
+				c.Doc.Events = append(c.Doc.Events, base...)
+			}
+		}
+		aligned := false
+		if len(c.Doc.Events) > 0 && strings.Contains(c.Rend.EOL, "\r") && rapid.IntRange(0, 5).Draw(rt, "align") == 0 {
+			aligned = alignCR(rt, func() []byte { return renderSSA(c.Doc, c.Rend) }, func(n int) {
+				if len(c.Doc.Comments) > 0 {
+					c.Doc.Comments[0] += strings.Repeat("x", n)
+				} else if v, ok := c.Doc.Info["Title"]; ok {
+					c.Doc.Info["Title"] = v + strings.Repeat("x", n)
+				}
+			})
+		}
 		b := renderSSA(c.Doc, c.Rend)
 		nt, ls := c04Labels(c.Doc, &c.Rend)
+		if aligned {
+			ls = append(ls, "cr-at-end-of-4096-byte-block")
+		}
+		if len(b) > 65536 {
+			ls = append(ls, "over-64KiB")
+		}
 		ev.Case(nt, string(b), append(ls, "read")...)
 		if nt && len(c.Doc.Events) <= 2 {
 			ev.Sample("read", map[string]any{"document": string(b)})
